@@ -209,7 +209,7 @@ def process(unit_name, out_dir, mode='verify'):
             u.opts[toks[1]] = toks[2] if len(toks) > 2 else True
             continue
         if cmd == 'dep':
-            u.deps.append(' '.join(toks[1:]))
+            u.deps.append(st[len('//@ dep '):].strip())
             continue
         if cmd == 'include':
             with open(os.path.join(SPECS, toks[1])) as f:
